@@ -33,7 +33,7 @@ pub fn gen_meta(rng: &mut Rng, img: &HImg, with_icc: bool) -> EncOpts {
     if with_icc {
         match rng.below(4) {
             0 => e.pre_plte.push((*b"sRGB", vec![rng.below(4) as u8])),
-            1 => { let k = rng.below(3); e.pre_plte.push((*b"iCCP", make_iccp(&gen_profile(rng, k)))); }
+            1 => { let k = *rng.choose(&[0u64, 0, 1, 2, 6, 6]); e.pre_plte.push((*b"iCCP", make_iccp(&gen_profile(rng, k)))); }
             2 => e.pre_plte.push((*b"iCCP", b"broken\0\0\x01\x02\x03".to_vec())),
             _ => {
                 // both (not allowed by the specification, but decoders see it): kept out of strict runs
